@@ -46,6 +46,9 @@ type Plan struct {
 	// that the goroutine ids of the plan (and the "in goroutine N" of their
 	// creators) have more digits.
 	BurnIDs int `json:"burn_ids,omitempty"`
+	// Traceback is the GOTRACEBACK setting of the process that executes the
+	// plan ("system" adds gp=/m= annotations and runtime goroutines to the dump).
+	Traceback string `json:"gotraceback,omitempty"`
 }
 
 var kinds = []string{"recv", "send", "select2", "selecttimer", "sleep", "wg", "cond", "nilrecv", "nilsend", "selectnone"}
@@ -59,7 +62,7 @@ var validSim = []string{"", "exactflags", "exactlines", "anypointer", "anyvalue"
 var badSim = []string{"bogus", "ANYPOINTER", "alike", "1", "any value"}
 var validAug = []string{"", "0", "1"}
 var badAug = []string{"2", "-1", "x", "1.0"}
-var validMem = []string{"", "1", "1048576", "2097152", "67108864"}
+var validMem = []string{"", "1", "500000", "1048576", "2097152", "67108864"}
 var badMem = []string{"abc", "1e6", "99999999999999999999999", "0x10"}
 
 func genQuery(r *core.Rng) (method, query string, valid bool) {
@@ -91,6 +94,9 @@ func GenPlan(r *core.Rng, seed, run uint64) *Plan {
 	p := &Plan{Seed: seed, Run: run}
 	if r.Chance(0.3) {
 		p.BurnIDs = []int{300, 1200, 12000, 70000}[r.Intn(4)]
+	}
+	if r.Chance(0.15) {
+		p.Traceback = "system"
 	}
 	if r.Chance(0.06) {
 		// "many requests" flavour: a long series of requests against one small
@@ -143,7 +149,7 @@ func GenPlan(r *core.Rng, seed, run uint64) *Plan {
 				burst = r.Range(2, 30)
 			}
 			for b := 0; b < burst && live < maxLive; b++ {
-				s := Step{Op: "spawn", Kind: kinds[r.Intn(len(kinds))], Creator: r.Intn(3), Locked: r.Chance(0.1)}
+				s := Step{Op: "spawn", Kind: kinds[r.Intn(len(kinds))], Creator: r.Intn(4), Locked: r.Chance(0.1)}
 				if (s.Kind == "nilrecv" || s.Kind == "nilsend" || s.Kind == "selectnone") && leaks >= 2 {
 					s.Kind = "recv"
 				}
@@ -307,7 +313,15 @@ func spawnB(e *entry) { go e.body() }
 //go:noinline
 func spawnC(e *entry) { go e.body() }
 
-var creatorNames = []string{"spawnA", "spawnB", "spawnC"}
+// spawnD starts the goroutine from a closure: the creator is an anonymous
+// function.
+//
+//go:noinline
+func spawnD(e *entry) {
+	func() { go e.body() }()
+}
+
+var creatorNames = []string{"spawnA", "spawnB", "spawnC", "spawnD.func1"}
 
 func (e *entry) release() bool {
 	switch e.kind {
@@ -574,8 +588,12 @@ func (c *checker) checkResponseReg(method, query string, code int, ctype, body s
 	// with augment=0 they are not
 	has := strings.Contains(body, "*entry(")
 	what := fmt.Sprintf("%s /debug?%s", method, query)
+	// (buckets that merge goroutines with different pointers show "*" instead,
+	// so the positive half is asserted only where nothing can merge: the exact
+	// similarity levels, or a single registered goroutine)
+	exact := strings.Contains(query, "similarity=exactflags") || strings.Contains(query, "similarity=exactlines")
 	if augmentOn(query) {
-		if haveReg > 0 && !has {
+		if (haveReg == 1 || (haveReg > 0 && exact)) && !has {
 			c.fail("augment-param", "%s: augmentation is on but no argument of the harness's frames was rewritten from the sources on disk", what)
 		}
 	} else if has {
